@@ -1,6 +1,7 @@
 import Driver.Util
 import Driver.C02
 import Driver.C10
+import Driver.C18
 import Driver.C08
 import Driver.C12
 import Driver.C19
@@ -20,6 +21,8 @@ def dispatch (line : String) : String :=
     | op :: args =>
       if op.startsWith "s." then Driver.C02.handle (op.drop 2).toString args
       else if op == "chain" then Driver.C10.handle args
+      else if op == "pm" then Driver.C18.handle args
+      else if op == "pm.compile" then Driver.C18.handleCompile args
       else if op.startsWith "it." then Driver.C08.handle (op.drop 3).toString args
       else if op.startsWith "pi." then Driver.C12.handle (op.drop 3).toString args
       else if Driver.C19.owns op then Driver.C19.handle op args
